@@ -583,7 +583,8 @@ func newHistogram(desc *Desc, opts HistogramOpts, labelValues ...string) Histogr
 	}
 	for i, upperBound := range h.upperBounds {
 		if i < len(h.upperBounds)-1 {
-			if upperBound >= h.upperBounds[i+1] {
+			// Written as a negated "<" so that NaN bounds are rejected, too.
+			if !(upperBound < h.upperBounds[i+1]) {
 				panic(fmt.Errorf(
 					"histogram buckets must be in increasing order: %f >= %f",
 					upperBound, h.upperBounds[i+1],
